@@ -138,7 +138,9 @@ func (rs *RunSummary) reportViolation(h harnessSummary, v *PathResult) {
 	if v.Verdict.Kind == "UNWIND" || v.Verdict.Kind == "ALLOC" || v.Verdict.Kind == "DEADLOCK" {
 		to = 20 * time.Second
 	}
+	RaceReplay = v.Verdict.Kind == "RACE"
 	native, cmd, err := NativeReplay(rs.Opt, h.Pkg, h.Name, path, to)
+	RaceReplay = false
 	rf.Native = native
 	rf.Cmd = cmd
 	write()
@@ -246,7 +248,7 @@ func (rs *RunSummary) WriteEvidence(path string) error {
 		"machinery_notes":      rs.machinery,
 		"unconfirmed_models":   rs.unconfirmed,
 		"exhaustive":           false,
-		"trusted_base":         []string{"gosx SSA interpreter + intrinsics (see DESIGN.md §2.4)", "z3 4.8.12", "golang.org/x/tools/go/ssa v0.29.0"},
+		"trusted_base":         []string{"gosx SSA interpreter + intrinsics (see DESIGN.md §2.4)", "z3 5.1.0 (z3-new); cross-checked with z3 4.8.12 via --solver z3", "golang.org/x/tools/go/ssa v0.29.0"},
 	}
 	ev := &Evidence{PropertyID: rs.Property, Tier: rs.Tier, Seed: rs.Seed, Level: "model_checking", Coverage: cov,
 		Assumptions: Assumptions(rs.Property), WallS: rs.wall.Seconds(), Violations: rs.violations}
